@@ -146,3 +146,21 @@ Lemma odeint_budget_lemma mx n : (mx < n)%nat -> solve_odeint mx n = Failure.
 Proof. intro H. unfold solve_odeint. apply Nat.ltb_lt in H. rewrite H. reflexivity. Qed.
 Lemma odeint_within_lemma mx n : (n <= mx)%nat -> solve_odeint mx n = Success.
 Proof. intro H. unfold solve_odeint. destruct (Nat.ltb_spec mx n); [lia | reflexivity]. Qed.
+
+(* the budget in force at the end of a history of Init / Reset calls is the last one given *)
+Fixpoint last_budget (b : nat) (cs : list ocall) : nat :=
+  match cs with
+  | [] => b
+  | OInit b' :: r => last_budget b' r
+  | OReset b' :: r => last_budget b' r
+  | OSolve _ :: r => last_budget b r
+  end.
+Lemma odeint_history_app b cs n :
+  odeint_history b (cs ++ [OSolve n]) = odeint_history b cs ++ [solve_odeint (last_budget b cs) n].
+Proof.
+  revert b. induction cs as [|c cs IH]; intro b; [reflexivity|].
+  destruct c as [b'|b'|m]; cbn [app odeint_history last_budget]; rewrite IH; reflexivity.
+Qed.
+Lemma odeint_last_budget_lemma b cs n :
+  last (odeint_history b (cs ++ [OSolve n])) Success = if Nat.ltb (last_budget b cs) n then Failure else Success.
+Proof. rewrite odeint_history_app, last_last. reflexivity. Qed.
